@@ -97,4 +97,54 @@ example : ∃ (p : Cog8.P) (r t : ℝ), 0 < r ∧ 0 < t ∧ p.beta - p.alpha + 4
             gamma := 7/5, geometry := 3, lam0_ := 1, rho0 := 9/5, temp0 := 7/5 }, 1, 1, ?_⟩
   norm_num
 
+/-! ### The returned fields (tree level)
+
+The only path condition is `t ≤ 0` (NaN fields); where the solver returns numbers the returned
+fields are those of leaf 1, on the whole line {(x, t)} and for all times near t. -/
+
+
+theorem cog8_tree (p : Cog8.P) (r t : ℝ) (h : Cog8.outcome p r t = .ok) :
+    0 < t ∧ AgreeAt (Cog8.density p) (Cog8.L1.density p) r t
+      ∧ AgreeAt (Cog8.velocity p) (Cog8.L1.velocity p) r t
+      ∧ AgreeAt (Cog8.temperature p) (Cog8.L1.temperature p) r t := by
+  have ht : 0 < t := by
+    by_contra hc
+    have hc' : t ≤ 0 := not_lt.mp hc
+    simp [epv_tree, epv_cond, hc'] at h
+  have e : ∀ x s, 0 < s → Cog8.density p x s = Cog8.L1.density p x s
+      ∧ Cog8.velocity p x s = Cog8.L1.velocity p x s
+      ∧ Cog8.temperature p x s = Cog8.L1.temperature p x s := by
+    intro x s hs
+    have hns : ¬ s ≤ 0 := not_le.mpr hs
+    simp only [epv_tree, epv_cond, hns, if_false, and_self]
+  refine ⟨ht, ⟨fun x => (e x t ht).1, ?_⟩, ⟨fun x => (e x t ht).2.1, ?_⟩, ⟨fun x => (e x t ht).2.2, ?_⟩⟩
+  · filter_upwards [Ioi_mem_nhds ht] with s hs using (e r s hs).1
+  · filter_upwards [Ioi_mem_nhds ht] with s hs using (e r s hs).2.1
+  · filter_upwards [Ioi_mem_nhds ht] with s hs using (e r s hs).2.2
+
+/-- mass balance of the returned (tree-level) fields -/
+theorem cog8_mass_tree (p : Cog8.P) (r t : ℝ) (h : Cog8.outcome p r t = .ok) (hr : 0 < r) (hden : p.beta - p.alpha + 4 ≠ 0) :
+    massRes (Cog8.density p) (Cog8.velocity p) (p.geometry - 1) r t = 0 := by
+  obtain ⟨ht, hρ', hu', hT'⟩ := cog8_tree p r t h
+  rw [massRes_congr hρ' hu']
+  exact cog8_mass p r t hr ht hden
+
+/-- momentum balance of the returned (tree-level) fields -/
+theorem cog8_momentum_tree (p : Cog8.P) (r t : ℝ) (h : Cog8.outcome p r t = .ok) (hr : 0 < r) (hden : p.beta - p.alpha + 4 ≠ 0)
+    (hρ : p.rho0 ≠ 0) :
+    momResT (Cog8.density p) (Cog8.velocity p) (Cog8.temperature p) p.Gamma r t = 0 := by
+  obtain ⟨ht, hρ', hu', hT'⟩ := cog8_tree p r t h
+  rw [momResT_congr hρ' hu' hT']
+  exact cog8_momentum p r t hr ht hden hρ
+
+/-- energy balance of the returned (tree-level) fields -/
+theorem cog8_energy_tree (p : Cog8.P) (r t : ℝ) (h : Cog8.outcome p r t = .ok) (hr : 0 < r) (hden : p.beta - p.alpha + 4 ≠ 0)
+    (hγ : p.gamma - 1 ≠ 0) (hρ : 0 < p.rho0) (hT : 0 < p.temp0)
+    (hα : p.alpha_ = p.alpha) (hβ : p.beta_ = p.beta) :
+    energyResT (Cog8.density p) (Cog8.velocity p) (Cog8.temperature p) p.Gamma p.gamma
+      (p.geometry - 1) p.c_light p.a_rad p.lam0_ p.alpha_ p.beta_ r t = 0 := by
+  obtain ⟨ht, hρ', hu', hT'⟩ := cog8_tree p r t h
+  rw [energyResT_congr hρ' hu' hT']
+  exact cog8_energy p r t hr ht hden hγ hρ hT hα hβ
+
 end EPV.C01
